@@ -1286,6 +1286,16 @@ def _b_deepcopy(i, a, k, t):
         if isinstance(v, AObj):
             if id(v) in memo:
                 return memo[id(v)]
+            # a class that defines its own __deepcopy__ / __copy__ decides what a copy is (it may hand back the object itself)
+            hook = None
+            try:
+                hook = i.idx.resolve_method(v.cls, "__deepcopy__" if t.startswith("deepcopy") or "deepcopy" in t else "__copy__") or i.idx.resolve_method(v.cls, "__deepcopy__")
+            except Exception:
+                hook = None
+            if hook is not None and not v.opaque:
+                res = i.call_function(hook, [{}] if len(hook.node.args.args) > 1 else [], self_obj=v)
+                memo[id(v)] = res
+                return res
             n = AObj(v.cls, {}, label=f"copy({v.label})" if v.label else None, origin=f"copy-of-{v.origin}", opaque=v.opaque)
             memo[id(v)] = n
             n.fields = {kk: cp(vv) for kk, vv in v.fields.items()}
